@@ -50,7 +50,7 @@ func genC11(t *rapid.T) E1Case {
 	}
 	var c E1Case
 	genKind(t, &c, []string{"sync", "qblock", "qblock", "qnonblock"})
-	source := rapid.SampledFrom([]string{"user", "user", "user", "parentcancel", "peereof", "readfail", "senderfail"}).Draw(t, "source")
+	source := rapid.SampledFrom([]string{"user", "user", "user", "parentcancel", "peereof", "readfail", "senderfail", "user-after-parentcancel", "user-closefault"}).Draw(t, "source")
 	if source == "senderfail" && c.Kind == "sync" {
 		source = "user"
 	}
@@ -65,6 +65,13 @@ func genC11(t *rapid.T) E1Case {
 	closer := E1Task{Role: "closer"}
 	switch source {
 	case "user":
+		closer.Ops = []E1Op{{Op: "close", Err: rapid.SampledFrom(closeErrKinds).Draw(t, "cerr")}}
+	case "user-after-parentcancel":
+		// the context the channel was created from has ended already (Shutdown cancels, then closes)
+		closer.Ops = []E1Op{{Op: "cancelparent"}, {Op: "close", Err: rapid.SampledFrom(closeErrKinds).Draw(t, "cerr")}}
+	case "user-closefault":
+		// the transport's own Close reports an error
+		c.Faults = []mock.Fault{{Op: "close", K: 1, Err: rapid.SampledFrom([]string{"plain", "neterr"}).Draw(t, "ferr")}}
 		closer.Ops = []E1Op{{Op: "close", Err: rapid.SampledFrom(closeErrKinds).Draw(t, "cerr")}}
 	case "parentcancel":
 		closer.Ops = []E1Op{{Op: "cancelparent"}, {Op: "feed", N: 3}}
